@@ -158,6 +158,63 @@ Theorem C17_last_named_selector_wins :
 Proof. exact effective_sel_app. Qed.
 Print Assumptions C17_last_named_selector_wins.
 
+(* ---- the consumer, c2/session.go listen (and connectContextInner / the Profile swap) ----------
+   The session HOLDS a host, a wrapper and a transform between passes and connects through
+   s.p.Connect, i.e. the active entry's connector.  After entering a profile (start or swap: one
+   Next()) and after every history of passes `if Switch(e) { h, s.w, s.t = Next(); if h != "" ... }`
+   -- all selectors, all e, all in-range draws -- the wrapper and transform held are those of the
+   ACTIVE entry, and the host is one of the active entry's hosts unless that entry names none. *)
+Theorem C17_consumer_enter_holds_active_group :
+  forall sel ents hd ds,
+  hosts_ok ents -> 0 < len ents -> calls_ok (init_calls sel (len ents) None ds) ->
+  held_ok ents (consumer_enter sel ents hd ds).
+Proof. exact consumer_enter_ok. Qed.
+Print Assumptions C17_consumer_enter_holds_active_group.
+
+Theorem C17_consumer_holds_active_group :
+  forall sel ents, hosts_ok ents -> 0 < len ents ->
+  forall ps st, held_ok ents st -> passes_ok sel ents st ps ->
+  Forall (held_ok ents) (consumer_states sel ents st ps).
+Proof. exact consumer_states_ok. Qed.
+Print Assumptions C17_consumer_holds_active_group.
+
+(* every Connect of the listen loop therefore goes through the active entry's connector with that
+   entry's own wrapper and transform; and these Connect events are what the correspondence run
+   compares with the real listen() *)
+Theorem C17_consumer_connect_uses_own_wrapper_transform :
+  forall sel ents st, held_ok ents st ->
+  exists en, current ents (fst st) = Some en /\
+    connect_event sel ents st = [e_conn en; h_host (snd st); e_wrap en; e_trans en].
+Proof. exact connect_event_active. Qed.
+Print Assumptions C17_consumer_connect_uses_own_wrapper_transform.
+
+Theorem C17_consumer_events_are_the_states :
+  forall sel ents ps st,
+  fst (consumer_passes sel ents st ps) = map (connect_event sel ents) (consumer_states sel ents st ps).
+Proof. exact consumer_passes_events. Qed.
+Print Assumptions C17_consumer_events_are_the_states.
+
+(* a group without a Host entry keeps the host the session has (and still brings its own
+   wrapper and transform, by the theorems above) *)
+Theorem C17_consumer_hostless_group_keeps_host :
+  forall sel ents st e ds1 ds2 en,
+  hosts_ok ents -> 0 < len ents -> held_ok ents st ->
+  calls_ok (switch_calls sel (len ents) (fst st) e ds1) ->
+  current ents (fst (consumer_pass sel ents st e ds1 ds2)) = Some en -> e_hosts en = [] ->
+  h_host (snd (consumer_pass sel ents st e ds1 ds2)) = h_host (snd st).
+Proof. exact consumer_pass_hostless. Qed.
+Print Assumptions C17_consumer_hostless_group_keeps_host.
+
+(* non-vacuity: round-robin over A (host 1, wrapper 1) and host-less B (wrapper 4, transform 1):
+   the second Connect goes through B's connector with B's wrapper and transform to A's host *)
+Example C17_nonvacuous_consumer :
+  let a := mkE 20 [1] 1 0 0 0 0 false (-1) [] 500 in
+  let b := mkE 10 [] 4 1 0 0 0 false (-1) [] 501 in
+  zlist_eqb (concat (consumer_segments no_held true
+     (mkSeg SelRoundRobin (a :: b :: nil) nil (mkPass false nil nil :: mkPass false nil nil :: nil) :: nil)))
+    [500; 1; 1; 0;  501; 1; 4; 1;  500; 1; 1; 0] = true.
+Proof. vm_compute. reflexivity. Qed.
+
 (* non-vacuity: three entries with a tie, a valid order, a last-valid history with a failure,
    and a round-robin lap *)
 Example C17_nonvacuous :
